@@ -527,6 +527,8 @@ func (e *c29env) observeForward(req *bfe_basic.Request) int {
 	return bfe_module.BfeHandlerGoOn
 }
 
+var errC29Rejected = fmt.Errorf("request rejected with 400 before any callback")
+
 // c29run serves one accepted connection carrying the given requests back to back.
 func c29run(e *c29env, p *c29peer, raws [][]byte, cd *c29conds) ([]*c29obs, error) {
 	remote := &net.TCPAddr{IP: append(net.IP(nil), p.ip...), Port: p.port, Zone: p.zone}
@@ -539,6 +541,9 @@ func c29run(e *c29env, p *c29peer, raws [][]byte, cd *c29conds) ([]*c29obs, erro
 	c.serve()
 	obs := e.obs
 	e.obs = nil
+	if len(obs) == 0 && len(raws) == 1 && strings.HasPrefix(conn.out.String(), "HTTP/1.1 400 ") {
+		return nil, errC29Rejected // refused by the parser: no callback ran, nothing went upstream
+	}
 	if len(obs) != len(raws) {
 		return nil, fmt.Errorf("%d requests served, %d sent; client got %q", len(obs), len(raws), conn.out.String())
 	}
@@ -929,6 +934,10 @@ func TestVerifC29(t *testing.T) {
 						panics++
 						r.Outcome("panic:" + vk.PanicSite(val))
 						t.Logf("C29: panic in case %s: %s", id, val)
+						return
+					}
+					if rerr == errC29Rejected {
+						r.Outcome("rejected-400-before-any-callback")
 						return
 					}
 					if rerr != nil {
